@@ -14,7 +14,7 @@ use crate::modular::{MontyForm, MontyParams};
 use crate::{Limb, Odd, Uint, Word};
 
 macro_rules! boxed_pow1 {
-    ($name:ident, $k:expr, $m:expr, $x:expr) => {
+    ($name:ident, $k:expr, $m:expr, $x:expr, $cov:expr) => {
         #[kani::proof]
         #[kani::unwind(20)]
         fn $name() {
@@ -37,18 +37,26 @@ macro_rules! boxed_pow1 {
             assert!(r.nlimbs() == 1 && rv < m); // canonical
             assert!(rv == want.as_montgomery().as_words()[0]); // base^(e mod 2^k), as the fixed-width route
             kani::cover!(x == m - 1 && e > 1);
-            kani::cover!(rv == 0 && x != 0);
+            if $cov {
+                kani::cover!(rv == 0 && x != 0); // base^e = 0 mod m with a non-zero base (composite m)
+            }
             core::mem::forget((bm, bone, bx, be, r));
         }
     };
 }
-//@ name=c09_k8_boxed_pow_k8 prop=C09,C15,C11 tier=quick profile=k8 funcs="pow_montgomery_form (boxed; body of BoxedMontyForm::pow / pow_bounded_exp),BoxedMontyMultiplier::mul_amm,square_amm_assign,mul_amm_assign" bound="u8 words, boxed 1 limb, k=8: m in {81, 125, 75, 127, 255, 3} (one leading zero bit and composite / prime / top bit set), every base < m, every 8-bit exponent" free_bits=19
-boxed_pow1!(c09_k8_boxed_pow_k8, 8, { let i: u8 = kani::any(); kani::assume(i < 6); [81 as Word, 125, 75, 127, 255, 3][i as usize] }, kani::any());
+//@ name=c09_k8_boxed_pow_k8_m81 prop=C09,C15,C11 tier=quick profile=k8 funcs="pow_montgomery_form (boxed; body of BoxedMontyForm::pow / pow_bounded_exp),BoxedMontyMultiplier::mul_amm,square_amm_assign,mul_amm_assign" bound="u8 words, boxed 1 limb, k=8: m = 81 = 3^4 (composite, one leading zero bit), every base < m, every 8-bit exponent" free_bits=15
+boxed_pow1!(c09_k8_boxed_pow_k8_m81, 8, 81, kani::any(), true);
+//@ name=c09_k8_boxed_pow_k8_m125 prop=C09,C15,C11 tier=quick profile=k8 funcs="pow_montgomery_form (boxed)" bound="u8 words, boxed 1 limb, k=8: m = 125 = 5^3 (composite, one leading zero bit), every base < m, every 8-bit exponent" free_bits=15
+boxed_pow1!(c09_k8_boxed_pow_k8_m125, 8, 125, kani::any(), true);
+//@ name=c09_k8_boxed_pow_k8_m255 prop=C09,C15,C11 tier=quick profile=k8 funcs="pow_montgomery_form (boxed)" bound="u8 words, boxed 1 limb, k=8: m = 255 (composite, no leading zero bit), every base < m, every 8-bit exponent" free_bits=16
+boxed_pow1!(c09_k8_boxed_pow_k8_m255, 8, 255, kani::any(), false);
+//@ name=c09_k8_boxed_pow_k8_mset prop=C09,C15,C11 tier=thorough profile=k8 funcs="pow_montgomery_form (boxed)" bound="u8 words, boxed 1 limb, k=8: m in {81, 125, 75, 127, 255, 3}, every base < m, every 8-bit exponent" free_bits=19
+boxed_pow1!(c09_k8_boxed_pow_k8_mset, 8, { let i: u8 = kani::any(); kani::assume(i < 6); [81 as Word, 125, 75, 127, 255, 3][i as usize] }, kani::any(), true);
 //@ name=c09_k8_boxed_pow_k5 prop=C09,C15,C11 tier=quick profile=k8 funcs="pow_montgomery_form (boxed)" bound="u8 words, boxed 1 limb, k=5 (partial top window): m = S(2)^sign|1 >= 3, base S(2) < m, every 8-bit exponent" free_bits=17
-boxed_pow1!(c09_k8_boxed_pow_k5, 5, shaped_signed_top(2) | 1, shaped_word(2));
+boxed_pow1!(c09_k8_boxed_pow_k5, 5, shaped_signed_top(2) | 1, shaped_word(2), false);
 //@ name=c09_k8_boxed_pow_k0 prop=C09,C15,C11 tier=quick profile=k8 funcs="pow_montgomery_form (boxed; exponent_bits = 0)" bound="u8 words, boxed 1 limb, k=0: every odd m >= 3, every base < m, every exponent: result is one" free_bits=23
-boxed_pow1!(c09_k8_boxed_pow_k0, 0, kani::any(), kani::any());
+boxed_pow1!(c09_k8_boxed_pow_k0, 0, kani::any(), kani::any(), false);
 //@ name=c09_k8_boxed_pow_k8_allm prop=C09,C15,C11 tier=thorough profile=k8 funcs="pow_montgomery_form (boxed)" bound="u8 words, boxed 1 limb, k=8: every odd m >= 3, every base < m, every 8-bit exponent" free_bits=23
-boxed_pow1!(c09_k8_boxed_pow_k8_allm, 8, kani::any(), kani::any());
+boxed_pow1!(c09_k8_boxed_pow_k8_allm, 8, kani::any(), kani::any(), true);
 //@ name=c09_k8_boxed_pow_k4 prop=C09,C15,C11 tier=thorough profile=k8 funcs="pow_montgomery_form (boxed)" bound="u8 words, boxed 1 limb, k=4 (window boundary): m = S(2)^sign|1 >= 3, base S(2) < m, every 8-bit exponent" free_bits=17
-boxed_pow1!(c09_k8_boxed_pow_k4, 4, shaped_signed_top(2) | 1, shaped_word(2));
+boxed_pow1!(c09_k8_boxed_pow_k4, 4, shaped_signed_top(2) | 1, shaped_word(2), false);
